@@ -266,7 +266,7 @@ def h_faithful(ch: Chooser, vec: list, maxfeat: int, oname: str, free_instances:
     ent = get_generated(files, oname, opts, root_q)
     if ent["problem"]:
         kind, detail = ent["problem"]
-        if kind == "generated-package-unusable" and "Compound field contains ambiguous types" in str(detail) and "mixed" in s.features and opts.get("unnest_classes"):
+        if kind == "generated-package-unusable" and "Compound field contains ambiguous types" in str(detail) and ({"mixed", "mixed-complex-content-restriction"} & set(s.features)) and opts.get("unnest_classes"):
             return dict(ok=False, case=case, bucket="KF/mixed-content-with-two-children-of-one-type-unnested-is-ambiguous", detail=str(detail)[:800])
         if kind == "generated-package-unusable" and opts.get("structure_style") == "namespaces" and s.tns is None and s.import_ is not None and any(
                 f.count("/") == 0 and f.endswith(".py") and f != "__init__.py" for f in ent["gen"].files):
@@ -299,7 +299,7 @@ def h_faithful(ch: Chooser, vec: list, maxfeat: int, oname: str, free_instances:
     case["output"] = out
     tmap = type_map(s)
     compound = bool(opts.get("compound_fields.enabled"))
-    ordered = s.ordered or (compound and set(s.features) & {"choice-repeating"} and not set(s.features) & {"all", "mixed", "sequence-repeating", "choice-of-sequences", "substitution-group"})
+    ordered = s.ordered or (compound and set(s.features) & {"choice-repeating"} and not set(s.features) & {"all", "mixed", "mixed-complex-content-restriction", "sequence-repeating", "choice-of-sequences", "choice-single-of-sequence", "substitution-group", "substitution-member-own-named-type"})
     try:
         exp = apply_defaults(normalise(I.parse_scoped(doc), tmap, ordered=ordered), s, tmap)
         act = normalise(I.parse_scoped(out), tmap, ordered=ordered)
@@ -338,7 +338,8 @@ def known(exp, act, s: GX.Schema, doc: str, out: str) -> str | None:
         if act2 == exp2 and act != exp:
             return "KF/absent-optional-nillable-element-emitted-as-xsi-nil"
     # (c) mixed content: a typed QName child is re-serialized in Clark notation
-    if "mixed" in s.features and "qname-value" in s.features and "{http://www.w3.org/2001/XMLSchema}string</" in out or ("mixed" in s.features and "qname-value" in s.features and ">{urn:t}thing</" in out):
+    mixed = bool({"mixed", "mixed-complex-content-restriction"} & set(s.features))   # one content model, two spellings in the schema
+    if mixed and "qname-value" in s.features and "{http://www.w3.org/2001/XMLSchema}string</" in out or (mixed and "qname-value" in s.features and ">{urn:t}thing</" in out):
         return "KF/mixed-content-qname-child-written-in-clark-notation"
     # (b) a required element of list type with an empty value is dropped
     if "list-type" in s.features:
